@@ -22,7 +22,7 @@ try:
     env = dict(os.environ, PYTHONPATH=wt)
     t = subprocess.run(["/venv/bin/python", "-m", "pytest", "-q", "-p", "no:cacheprovider", "--no-cov", "-x"], cwd=wt, env=env, capture_output=True, text=True)
     tail = [l for l in t.stdout.strip().split("\n") if "passed" in l or "failed" in l][-1:] or [t.stdout[-200:]]
-    print("suite with patch:", tail[0].strip())
+    print(f"suite with patch: exit={t.returncode} ({'passes' if t.returncode == 0 else 'FAILS'})", tail[0].strip()[-60:])
     demo = os.path.join(seed, "demo.py")
     if os.path.exists(demo):
         d1 = subprocess.run(["/venv/bin/python", demo], env=env, capture_output=True, text=True, cwd=tmp)
